@@ -5,6 +5,7 @@ import (
 	"go/ast"
 	"go/token"
 	"go/types"
+	"os"
 	"strings"
 )
 
@@ -178,7 +179,15 @@ func (f *Frame) specCall(st *State, e *ast.CallExpr, kind string) []*Term {
 			}
 		}
 		sv := f.resVals
+		// well-formedness facts about the entry state that the evaluation assumes (tables hold allocated rows filed
+		// under their own key, ...) are facts of this path too: evaluate under the current path condition and keep it
+		if c.inQuant == 0 {
+			o.pc = st.pc
+		}
 		t := f.expr(o, e.Args[0])
+		if c.inQuant == 0 {
+			st.pc = o.pc
+		}
 		f.resVals = sv
 		return []*Term{t}
 	case kind == "__forall" || kind == "__exists":
@@ -425,6 +434,35 @@ func (f *Frame) resolveModifies(st *State, ct *Contract) []modItem {
 			out = append(out, modItem{heap: m[5:], whole: true})
 		case m == "committed" || m == "aborted":
 			out = append(out, modItem{heap: "TX!" + m, whole: true})
+		case strings.HasPrefix(m, "map:"):
+			// the contents of the map an expression denotes (not the variable or field that holds the map)
+			ex, info, err := f.eng.checkSpecExprLoose(ct.fi.Fn.Pkg(), pos, m[4:])
+			if err != nil {
+				panic(unsupported{fmt.Sprintf("modifies %q: %v", m, err)})
+			}
+			sf := &Frame{c: c, eng: f.eng, info: info, fi: ct.fi, depth: f.depth, entry: f.entry, top: f.top, parent: f, inSpec: true}
+			mt, ok := types.Unalias(info.Types[ex].Type).Underlying().(*types.Map)
+			if !ok {
+				panic(unsupported{"modifies map: not a map: " + m})
+			}
+			work := st.clone()
+			ref := sf.expr(work, ex)
+			for _, part := range []string{"dom", "val", "len"} {
+				h := sf.mapHeap(mt, part)
+				if _, known := c.heapSort[h]; !known {
+					// make the heap's sort known to this context
+					ks, vs := c.sortOf(mt.Key()), c.sortOf(mt.Elem())
+					switch part {
+					case "dom":
+						c.heapSort[h] = ArrSort(SInt, ArrSort(ks, SBool))
+					case "val":
+						c.heapSort[h] = ArrSort(SInt, ArrSort(ks, vs))
+					case "len":
+						c.heapSort[h] = ArrSort(SInt, SInt)
+					}
+				}
+				out = append(out, modItem{heap: h, ref: ref})
+			}
 		default:
 			// x.Field  |  x.*  |  Type.Field | *p | global
 			if i := strings.LastIndex(m, "."); i > 0 {
@@ -440,7 +478,8 @@ func (f *Frame) resolveModifies(st *State, ct *Contract) []modItem {
 					}
 					if tt != nil {
 						sf0 := &Frame{c: c, eng: f.eng}
-						out = append(out, modItem{heap: sf0.fieldHeapName(tt, m[i+1:]), whole: true})
+						sf0.info = f.info
+						out = append(out, modItem{heap: sf0.noteFieldHeap(tt, m[i+1:]), whole: true})
 						continue
 					}
 				}
@@ -455,7 +494,7 @@ func (f *Frame) resolveModifies(st *State, ct *Contract) []modItem {
 				// type-level?
 				if tv, ok := info.Types[x.X]; ok && tv.IsType() {
 					st0 := tv.Type
-					out = append(out, modItem{heap: sf.fieldHeapName(st0, x.Sel.Name), whole: true})
+					out = append(out, modItem{heap: sf.noteFieldHeap(st0, x.Sel.Name), whole: true})
 					continue
 				}
 				sel := info.Selections[x]
@@ -517,7 +556,7 @@ func (f *Frame) modFromLoc(loc Loc, text string) []modItem {
 	switch l := loc.(type) {
 	case LHeapField:
 		si := f.c.structInfo(l.st)
-		return []modItem{{heap: f.fieldHeapName(l.st, si.Fields[l.idx].Name), ref: l.ref}}
+		return []modItem{{heap: f.noteFieldHeap(l.st, si.Fields[l.idx].Name), ref: l.ref}}
 	case LField:
 		return f.modFromLoc(l.base, text)
 	case LCond:
@@ -528,6 +567,47 @@ func (f *Frame) modFromLoc(loc Loc, text string) []modItem {
 		return nil
 	}
 	panic(unsupported{"modifies: not a heap location: " + text})
+}
+
+// mayHoldIterator: can a value of static type t be (or directly carry) a memdb.ResultIterator?
+func (f *Frame) mayHoldIterator(t types.Type) bool {
+	it := f.eng.lookupType(memdbPkg, "ResultIterator")
+	switch u := types.Unalias(t).Underlying().(type) {
+	case *types.Interface:
+		if it == nil {
+			return true
+		}
+		if iface, ok := it.Underlying().(*types.Interface); ok {
+			// every method t demands must be offered by iterators
+			return types.Implements(it, u) || types.Identical(iface, u)
+		}
+		return true
+	case *types.Basic:
+		return false
+	case *types.Pointer:
+		// a pointer to a struct that has an iterator-typed field could; none of the verified code does this
+		return false
+	}
+	return false
+}
+
+// noteFieldHeap: the heap array of a struct field named in a modifies clause; its sort is made known to this context
+// (a caller that has not touched the field yet must still be able to forget it after the call).
+func (f *Frame) noteFieldHeap(st types.Type, field string) string {
+	h := f.fieldHeapName(st, field)
+	if _, ok := f.c.heapSort[h]; !ok {
+		if d, isPtr := deref(st); isPtr {
+			st = d
+		}
+		if _, isStruct := types.Unalias(st).Underlying().(*types.Struct); isStruct {
+			si := f.c.structInfo(st)
+			if idx, ok := si.byName[field]; ok {
+				f.c.heapSort[h] = ArrSort(SInt, si.Fields[idx].Sort)
+				globalHeapSorts.Store(h, f.c.heapSort[h])
+			}
+		}
+	}
+	return h
 }
 
 // checkSpecExprLoose is checkSpecExpr that tolerates expressions used only as locations (e.g. "x.*" handled by caller).
@@ -576,8 +656,14 @@ func (f *Frame) calleeEffects(fi *FuncInfo) map[string]bool {
 				}
 			}
 		}
+		for k := range sc.extraEffects {
+			eff[k] = true
+		}
 	}()
 	eng.effects[fi.Fn] = eff
+	if os.Getenv("GOVC_DEBUG_EFFECTS") != "" {
+		fmt.Fprintf(os.Stderr, "effects(%s) = %v\n", fi.Fn.Name(), sortedKeys(eff))
+	}
 	return eff
 }
 
@@ -677,7 +763,9 @@ func (f *Frame) contractCall(st *State, e *ast.CallExpr, ct *Contract, recv *Ter
 	// effects
 	mods := cf.resolveModifies(bindSt, ct)
 	eff := map[string]bool{}
-	if !ct.Trusted && fi.Decl.Body != nil {
+	// a trusted contract's frame is its modifies clause; a trusted contract WITHOUT one trusts only the ensures
+	// clauses: whatever the body may write is unknown afterwards, exactly as for a verified contract
+	if (!ct.Trusted || !ct.HasMod) && fi.Decl.Body != nil {
 		for k := range f.calleeEffects(fi) {
 			if !strings.HasPrefix(k, "?") {
 				eff[k] = true
@@ -689,9 +777,18 @@ func (f *Frame) contractCall(st *State, e *ast.CallExpr, ct *Contract, recv *Ter
 	}
 	alloc0 := c.heapGet(st, "ALLOC", ArrSort(SInt, SBool))
 	for _, h := range sortedKeys(eff) {
-		hs, ok := c.heapSort[h]
+		hs, ok := c.heapSortOf(h)
 		if !ok {
-			continue
+			// a heap this context has never seen and whose sort is unknown: it cannot be read later without
+			// being declared, at which point it would silently count as unchanged. Refuse instead.
+			if c.discovery > 0 {
+				if c.extraEffects == nil {
+					c.extraEffects = map[string]bool{}
+				}
+				c.extraEffects[h] = true
+				continue
+			}
+			panic(unsupported{"call to " + ct.Name + " writes heap " + h + " whose sort is unknown in this context"})
 		}
 		old := c.heapGet(st, h, hs)
 		if h == "ALLOC" {
@@ -716,16 +813,48 @@ func (f *Frame) contractCall(st *State, e *ast.CallExpr, ct *Contract, recv *Ter
 		}
 		nw := c.fresh("cl!"+h, hs)
 		st.heap[h] = nw
+		if strings.HasPrefix(h, "IT!") && keySort(hs) == SInt {
+			// iterators: the callee can only advance iterators it was handed; every other iterator that existed
+			// before the call is where it was (iterators are never stored in heap objects in the verified code)
+			r := c.bvar("r", SInt)
+			conds := []*Term{Select(alloc0, r)}
+			for i, a := range args {
+				// only an argument whose static type can hold a memdb.ResultIterator hands an iterator to the callee:
+				// an interface type that iterators implement (ResultIterator itself, any, ...)
+				if i < sig.Params().Len() && !f.mayHoldIterator(sig.Params().At(i).Type()) {
+					continue
+				}
+				switch a.Sort {
+				case SInt:
+					conds = append(conds, Ne(r, a))
+				case SIfc:
+					conds = append(conds, Ne(r, ifaceRef(a)))
+				}
+			}
+			if recv != nil && recv.Sort == SIfc {
+				conds = append(conds, Ne(r, ifaceRef(recv)))
+			}
+			c.assume(st, Forall([]*Term{r}, Implies(And(conds...), Eq(Select(nw, r), Select(old, r))), Select(nw, r)))
+			continue
+		}
 		if whole || strings.HasPrefix(h, "IT!") || strings.HasPrefix(h, "TX!") {
 			continue
 		}
 		if strings.HasPrefix(h, "T!") {
-			if !listed {
-				st.heap[h] = old // tables not listed are unchanged (callee's frame obligation)
+			if !listed && ct.HasMod {
+				// the callee has a modifies clause that does not list this table: unchanged (its frame obligation,
+				// or its assumed frame when trusted). Without a modifies clause every table the body may write
+				// is unknown afterwards except for what the ensures clauses say.
+				st.heap[h] = old
 			}
 			continue
 		}
 		if keySort(hs) != SInt {
+			continue
+		}
+		if !listed && !ct.HasMod {
+			// no modifies clause: the callee may write this field of any object (found by the effect discovery);
+			// nothing is known about it afterwards beyond the ensures clauses
 			continue
 		}
 		r := c.bvar("r", SInt)
@@ -734,6 +863,10 @@ func (f *Frame) contractCall(st *State, e *ast.CallExpr, ct *Contract, recv *Ter
 			conds = append(conds, Ne(r, x))
 		}
 		c.assume(st, Forall([]*Term{r}, Implies(And(conds...), Eq(Select(nw, r), Select(old, r))), Select(nw, r)))
+		if c.clFrame == nil {
+			c.clFrame = map[string]clInfo{}
+		}
+		c.clFrame[nw.Op] = clInfo{old: old, refs: refs}
 	}
 	// results
 	var res []*Term
@@ -904,12 +1037,26 @@ func (f *Frame) checkFrame(st *State, entry *State, ct *Contract, ri int, where 
 		ks := keySort(hs)
 		// quantifier-free form when the exit value is a store/ite chain over the entry value: every written
 		// index must be one of the permitted references (or an object allocated by this call)
-		if ws, ok := c.storesOver(cur, old, 0); ok && len(ws) <= 64 {
+		ws, okStores := c.storesOver(cur, old, 0)
+		if okStores {
+			// distinct written indices only (objects allocated later are not modifications)
+			seenW := map[*Term]bool{}
+			var uniq []*Term
+			for _, w := range ws {
+				if w == newObjMarker || seenW[w] {
+					continue
+				}
+				seenW[w] = true
+				uniq = append(uniq, w)
+			}
+			ws = uniq
+		}
+		if ok := okStores; ok && len(ws) <= 64 {
 			var goals []*Term
 			seen := map[string]bool{}
 			for _, w := range ws {
 				k := renderTerm(w)
-				if seen[k] {
+				if seen[k] || w == newObjMarker {
 					continue
 				}
 				seen[k] = true
@@ -927,6 +1074,9 @@ func (f *Frame) checkFrame(st *State, entry *State, ct *Contract, ri int, where 
 			c.oblige(st, And(goals...), name, &Clause{Text: "modifies " + strings.Join(ct.Modifies, ", "), File: ct.File, Line: ct.Line})
 			continue
 		}
+		if os.Getenv("GOVC_DEBUG_FRAME") != "" {
+			fmt.Fprintf(os.Stderr, "frame %s: quantified form (exit heap %s is not a store chain over the entry heap)\n", name, c.whyNotStores(cur, old, 0))
+		}
 		r := c.bvar("r", ks)
 		var conds []*Term
 		if ks == SInt && !strings.HasPrefix(h, "T!") {
@@ -938,4 +1088,33 @@ func (f *Frame) checkFrame(st *State, entry *State, ct *Contract, ri int, where 
 		goal := Forall([]*Term{r}, Implies(And(conds...), Eq(Select(cur, r), Select(old, r))))
 		c.oblige(st, goal, name, &Clause{Text: "modifies " + strings.Join(ct.Modifies, ", "), File: ct.File, Line: ct.Line})
 	}
+}
+
+// whyNotStores: debugging aid - the first sub-term at which storesOver gives up
+func (c *Ctx) whyNotStores(t, base *Term, depth int) string {
+	if depth > 200 {
+		return "depth"
+	}
+	if same(t, base) {
+		return ""
+	}
+	if len(t.Args) == 0 {
+		if d, ok := c.defOf[t.Op]; ok {
+			return c.whyNotStores(d, base, depth+1)
+		}
+		if ci, ok := c.clFrame[t.Op]; ok {
+			return c.whyNotStores(ci.old, base, depth+1)
+		}
+		return "leaf " + t.Op
+	}
+	switch t.Op {
+	case "store":
+		return c.whyNotStores(t.Args[0], base, depth+1)
+	case "ite":
+		if w := c.whyNotStores(t.Args[1], base, depth+1); w != "" {
+			return w
+		}
+		return c.whyNotStores(t.Args[2], base, depth+1)
+	}
+	return "op " + t.Op
 }
